@@ -14,6 +14,7 @@ CONSTANTS
   SSizes = {1, 2}
   Filts = {"client", "server"}
   Ops = {"pub", "rem", "exp", "sexp", "clear", "refresh", "poscheck"}
+  MaxJumps = 1
   Pres = {0, 1}
   N0s = {0, 1, 2}
   Contig = TRUE
